@@ -19,6 +19,7 @@ EXPLANATION = (
     "evaluation point rescales the density by 1/c and leaves the cdf unchanged. NOT claimed: the numerical size of the "
     "truncation bound, monotonicity / limits of the cdf, the rule-of-thumb and cross-validated bandwidth selectors, samples "
     "larger than 4."
+    ' Tree look-up unit: BinaryTree.region_groups on an unordered array of symbolic points (repeats, points outside the limits) must put every point in the group of the region a scalar look-up gives, so array evaluation equals point-by-point evaluation.'
 )
 BOUNDS = {"quick": "fully symbolic 3 sample points with range/h in [1/2, 4); dropping regime on 2 fixed spacing patterns with symbolic shift/scale/evaluation point; (<= 2 tree layers; 1 layer for the invariance / covariance units), 1 evaluation point", "thorough": "2 evaluation points; more fixed shapes (ties, 5 points) for the regime where samples are dropped from the slice (range/h > 4; symbolic shift, scale and evaluation point, concrete spacing pattern) - the fully symbolic 3-point sample with range/h in [4,8) did not finish in 50 min"}
 ASSUMPTIONS = [
@@ -169,3 +170,62 @@ def dropped_samples_keep_the_margin_on_fixed_shapes(h, shape):
     for i in range(left):
         h.ge(f"sample {i} counted as fully left is at distance >= cutoff - w/2", x - srt[i], cutoff - w / 2)
     h.same("some sample is dropped on some path of this shape (non-vacuity is checked over the unit)", True, True)
+
+
+@unit("C12", quick=[], thorough=[dict(shape="pair_far", nx=3)], max_paths=20000, cost=9, axioms_in_trunc=True, timeout_ms=40000, thorough_wall_s=3000)
+def array_evaluation_equals_pointwise_evaluation(h, shape, nx):
+    """an array of evaluation points in arbitrary (not monotone) order, repeated points allowed: every entry of the density
+    and of the cdf must be what the scalar call returns for that point, whatever its neighbours in the array are"""
+    pat, h0 = SHAPES[shape]
+    b = h.real("b")
+    c = h.real("c", pos=True)
+    dt = object if h.sym else float
+    s = np.array([b + c * v for v in pat], dtype=dt)
+    bw = c * h0
+    kd, K = _kde(h, s, bw)
+    xs = list(h.real("x", nx - 1))
+    xs.append(xs[0])   # there and back: the array ends where it started (keeps the number of symbolic points at nx-1)
+    arr = np.array(xs, dtype=dt)
+    dens = np.asarray(K(arr.copy()))
+    cdf = np.asarray(K.cdf(arr.copy()))
+    h.same("one density / cdf value per evaluation point", (dens.shape, cdf.shape), ((nx,), (nx,)))
+    for k in range(nx):
+        h.eq(f"density[{k}] == density of the scalar call", dens[k], K(xs[k]))
+        h.eq(f"cdf[{k}] == cdf of the scalar call", cdf[k], K.cdf(xs[k]))
+    h.eq("evaluation array unchanged", arr, np.array(xs, dtype=dt))
+
+
+@unit("C12", quick=[dict(layers=1, nv=3)], thorough=[dict(layers=2, nv=3)], max_paths=20000, cost=6)
+def every_evaluation_point_is_grouped_under_its_own_region(h, layers, nv):
+    """the look-up that assigns each evaluation point the region (sample slice, cdf offset) it is evaluated with, on an
+    array of symbolic points in arbitrary order (not monotone, repeats allowed, outside the limits allowed): the groups
+    partition the array, and every point sits in the group of the region a scalar look-up of that point alone returns.
+    Together with the per-region formulas (other units) this gives: array evaluation == point-by-point evaluation"""
+    import inference.pdf.kde as kd
+    h.patch(kd, zeros=ozeros)
+    h.covers(kd.BinaryTree.__init__, kd.BinaryTree.region_groups, kd.unique_index_groups)
+    lo = h.real("lo")
+    wd = h.real("wd", pos=True)
+    T = kd.BinaryTree(layers, (lo, lo + wd))
+    dt = object if h.sym else float
+    vals = h.real("v", nv)
+    arr = np.array(vals, dtype=dt)
+    regs, groups = T.region_groups(arr)
+    regs = [int(r) for r in regs]
+    seen = sorted(int(i) for g in groups for i in g)
+    h.same("the groups partition the evaluation points", seen, list(range(nv)))
+    h.same("one group per region, regions distinct", (len(regs), len(set(regs))), (len(groups), len(regs)))
+    nreg = 2 ** layers
+    for r, g in zip(regs, groups):
+        h.same(f"region index {r} is a region of the tree", 0 <= r < nreg, True)
+        for i in g:
+            one_r, one_g = T.region_groups(np.array([vals[int(i)]], dtype=dt))
+            h.same(f"point {int(i)} is in the group of its own region", int(one_r[0]), r)
+            # and that region really contains the point (clamped to the outermost regions outside the limits)
+            left = lo + wd * r / nreg
+            right = lo + wd * (r + 1) / nreg
+            if r > 0:
+                h.ge(f"point {int(i)} >= left edge of its region", vals[int(i)], left)
+            if r < nreg - 1:
+                h.le(f"point {int(i)} <= right edge of its region", vals[int(i)], right)
+    h.eq("evaluation array unchanged", arr, np.array(vals, dtype=dt))
